@@ -323,6 +323,21 @@ def make_probe(desc, k):
                  A.pr(A.ListE([(V(a), True), (I(0), False), (V(b), True)], False)),
                  A.pr(A.Bin("===", A.ListE([(V(a), True)], False), V(a)))]
         return {"stmts": stmts, "expect": ["true"] + render(list(xs) + [0] + list(ys)) + ["false"], "tag": "list_spread", "what": "[%r.., 0, %r..]" % (xs, ys)}
+    if desc[0] == "restfresh":
+        _, nfixed, nlist = desc
+        f, l, x = "rf%d" % k, "rl%d" % k, "rx%d" % k
+        params = [V("p%d_%d" % (i, k)) for i in range(nfixed)] + [V("r%d" % k)]
+        vals = [20 + i for i in range(nlist)]
+        stmts = [A.FuncStmt(f, params, True, [A.Return(V("r%d" % k))]), A.Declare(V(l), A.lit(vals)),
+                 A.Declare(V(x), A.Call(V(f), [(V(l), True)])), A.pr(V(x)), A.pr(A.Bin("===", V(x), V(l)))]
+        if nlist < nfixed:
+            return {"stmts": stmts, "expect": None, "tag": "rest_parameter_fresh", "what": "f(l..) with %d fixed parameters and %d values" % (nfixed, nlist)}
+        rest = vals[nfixed:]
+        lines = render(rest) + ["false"]
+        if rest:
+            stmts += [A.Assign(A.Index(V(x), I(0)), I(-1)), A.pr(V(l))]
+            lines += render(vals)
+        return {"stmts": stmts, "expect": lines, "tag": "rest_parameter_fresh", "what": "f(l..) with %d fixed parameters and %d values: the rest is a fresh list" % (nfixed, nlist)}
     if desc[0] == "argsplit":
         _, nparams, collect, args, mask = desc
         f = "af%d" % k
@@ -475,6 +490,9 @@ def run(rep, tier):
                     descs.append(("argsplit", nparams, collect, args, m))
     for m in MISUSE:
         descs.append(("misuse", m))
+    for nfixed in (0, 1, 2):
+        for nlist in (0, 1, 2, 3):
+            descs.append(("restfresh", nfixed, nlist))
     for shape in ["flat_list", "nested_first", "nested_last", "two_nested", "object_values", "object_nested_list_first", "list_then_object",
                   "object_then_rest", "list_rest_same", "distinct_ok"]:
         for pos in ("decl", "assign", "for", "fn", "fn_def_only", "anon_params"):
